@@ -88,3 +88,6 @@ package surveyor
 //@   ensures !cl ==> cast("*context", result0).recvExpire == s.master.recvExpire
 //@   ensures !cl ==> cast("*context", result0).recvQLen == s.master.recvQLen
 //@   ensures !cl ==> cast("*context", result0).surv == nil
+//@
+//@ func (*socket).AddPipe
+//@   before call:SetPrivate#1 assert cap(p.sendQ) == s.sendQLen
